@@ -1,6 +1,7 @@
 import SeqVerif.Base.Proto
 import SeqVerif.Model.Pruning
 import SeqVerif.Model.C14Consts
+import SeqVerif.Model.SearchDocs
 /-!
 Driver for C14.  Numbers are decimal; times and durations are nanoseconds (`Int`), MIDs are `Nat`; bitmaps are hex.
 A matrix over probes `p_0..p_k` is `row_0,row_1,..` with `row_i[j]` = answer for `(p_i, p_j)`: `0`/`1`/`p` (panic).
@@ -155,6 +156,18 @@ def step (line : String) : String :=
       let kept := String.ofList (fs.map fun f => if FracInfo.isIntersecting f.info qf qt then '1' else '0')
       s!"ok kept={kept} all={fmtIDs (scanAll fs qf qt)} pruned={fmtIDs (scanPruned fs qf qt)}"
     | _, _, _ => "bad-op"
+  | ["ensured", desc, ids, next] =>
+    -- `ensured <desc 0|1> <ids mid.rid,..> <from:to | none>`: calcEnsuredIDsCount(ids, [next fraction], order) -> `ok n`
+    match bool? desc, parseDocs ids with
+    | some desc, some ids =>
+      let keys := ids.map fun p => SV.Merge.key p.1 p.2
+      if next = "none" then s!"ok {SV.Merge.calcEnsured desc keys []}"
+      else match next.splitOn ":" with
+        | [f, t] => match f.toNat?, t.toNat? with
+          | some f, some t => s!"ok {SV.Merge.calcEnsured desc keys [⟨1, f, t, []⟩]}"
+          | _, _ => "bad-op"
+        | _ => "bad-op"
+    | _, _ => "bad-op"
   | _ => "bad-op"
 
 def main : IO Unit := SV.Proto.main step
